@@ -75,3 +75,8 @@ def run(rep, tier, seed):
              "full_output x includeOrigin, uniform or non-uniform grid; a call is one trace" % (ncat, n))
     if acc == 0 and not rep.violations and not rep.known_hits:
         raise report.Machinery("no call was accepted (vacuous)")
+
+
+def selftest(seed):
+    from checks import selftest as st
+    return st.run([st.integrator])
